@@ -2,6 +2,6 @@ SPECIFICATION Spec
 CONSTANTS
   Plans <- MCPlans
   Parts = 2
-INVARIANTS TypeOK StatusOnlyIfComplete AlwaysPrefix RefusedNoRecord RefusalDetectable MustRefuse HeaderReflects DoneComplete
+INVARIANTS PlanOK TypeOK StatusOnlyIfComplete AlwaysPrefix RefusedNoRecord RefusalDetectable MustRefuse HeaderReflects DoneComplete
 PROPERTIES Monotone
 CHECK_DEADLOCK FALSE
